@@ -95,9 +95,9 @@ func mSplit(N int) ([]byte, []byte) {
 	return x, y
 }
 
-//verif:props=C07 bounds=VScalars2;|x|+|y|<=4(quick)/5(thorough) maxsteps=8000000
+//verif:props=C07 bounds=VScalars2;|x|+|y|<=3(quick)/5(thorough) maxsteps=8000000
 func H_M3_scalars2() {
-	N := 4
+	N := 3
 	if nd.Thorough() {
 		N = 5
 	}
@@ -105,9 +105,9 @@ func H_M3_scalars2() {
 	mMerge(0, x, y)
 }
 
-//verif:props=C07 bounds=VScalars3;|x|+|y|<=4(quick)/5(thorough) maxsteps=8000000
+//verif:props=C07 bounds=VScalars3;|x|+|y|<=3(quick)/5(thorough) maxsteps=8000000
 func H_M3_scalars3() {
-	N := 4
+	N := 3
 	if nd.Thorough() {
 		N = 5
 	}
@@ -115,9 +115,9 @@ func H_M3_scalars3() {
 	mMerge(1, x, y)
 }
 
-//verif:props=C07 bounds=VRepeats;|x|+|y|<=4(quick)/5(thorough) maxsteps=8000000
+//verif:props=C07 bounds=VRepeats;|x|+|y|<=3(quick)/5(thorough) maxsteps=8000000
 func H_M3_repeats() {
-	N := 4
+	N := 3
 	if nd.Thorough() {
 		N = 5
 	}
@@ -125,11 +125,11 @@ func H_M3_repeats() {
 	mMerge(2, x, y)
 }
 
-//verif:props=C07 bounds=VNests;|x|+|y|<=4(quick)/6(thorough) maxsteps=8000000
+//verif:props=C07 bounds=VNests;|x|+|y|<=3(quick)/5(thorough) maxsteps=8000000
 func H_M3_nests() {
-	N := 4
+	N := 3
 	if nd.Thorough() {
-		N = 6
+		N = 5
 	}
 	x, y := mSplit(N)
 	mMerge(3, x, y)
@@ -202,7 +202,7 @@ func H_M4_empty() {
 // H_M4_merge_alias: after Merge(dst, src), mutating src's byte slices (bytes fields, repeated bytes,
 // unknown fields, submessage contents) does not change dst.
 //
-//verif:props=C14,C07 bounds=VScalars2/VRepeats/VNests;src-from-all-byte-strings<=4 maxsteps=8000000
+//verif:props=C14 bounds=VScalars2/VRepeats/VNests;src-from-all-byte-strings<=3(quick)/4(thorough) maxsteps=8000000
 func H_M4_merge_alias() {
 	k := nd.Int(0, 2)
 	if k == 1 {
@@ -210,7 +210,11 @@ func H_M4_merge_alias() {
 	} else if k == 2 {
 		k = 3
 	}
-	b := nd.Bytes(4)
+	N := 3
+	if nd.Thorough() {
+		N = 4
+	}
+	b := nd.Bytes(N)
 	mi, src := vType(k)
 	_, dst := vType(k)
 	_, err := mi.unmarshalPointer(b, src, 0, mOpts())
@@ -304,9 +308,9 @@ func mSetCaches(k int, p pointer) {
 // history of earlier Size/Marshal calls and mutations), the sequence proto.Marshal performs
 // (Size, then Marshal with UseCachedSize) encodes the message's current content.
 //
-//verif:props=C16,C04 bounds=VNests/VReqOuter/VScalars2;messages-from-all-byte-strings<=4(quick)/5(thorough);arbitrary-int32-cache-contents maxsteps=8000000
+//verif:props=C16 bounds=VNests/VReqOuter/VScalars2;messages-from-all-byte-strings<=3(quick)/5(thorough);arbitrary-int32-cache-contents maxsteps=8000000
 func H_M5_sizecache() {
-	N := 4
+	N := 3
 	if nd.Thorough() {
 		N = 5
 	}
